@@ -104,21 +104,42 @@ func fucList(rs []*FnResult) []string {
 // the baseline was taken, and does not satisfy that default contract is a helper introduced by a refactoring (e.g. one
 // that increments the depth on behalf of its caller). It is not reported; instead it loses the default contract, so its
 // callers see its body (inlining) and must prove their own contracts with it.
-func (e *Engine) prepareExempt(id string, fns []*ssa.Function, opts *VCOpts) {
+// knownFunctions: the functions that existed when the baselines were taken (this check's baseline and the C01 sweep)
+func knownFunctions(id string) map[string]bool {
 	known := map[string]bool{}
-	if b, err := os.ReadFile(filepath.Join(verifDir(), "baseline", id+".json")); err == nil {
-		var bf struct {
-			Functions []string `json:"functions"`
+	for _, bid := range []string{id, "C01"} {
+		if b, err := os.ReadFile(filepath.Join(verifDir(), "baseline", bid+".json")); err == nil {
+			var bf struct {
+				Functions []string `json:"functions"`
+			}
+			json.Unmarshal(b, &bf)
+			for _, f := range bf.Functions {
+				known[f] = true
+			}
 		}
-		json.Unmarshal(b, &bf)
-		for _, f := range bf.Functions {
-			known[f] = true
+	}
+	return known
+}
+
+func (e *Engine) prepareExempt(id string, fns []*ssa.Function, opts *VCOpts) {
+	// functions that existed when the baselines were taken: those of this check's baseline and of the panic-freedom
+	// sweep (C01), whose baseline lists every function of the packages under contract
+	known := map[string]bool{}
+	any := false
+	for _, bid := range []string{id, "C01"} {
+		if b, err := os.ReadFile(filepath.Join(verifDir(), "baseline", bid+".json")); err == nil {
+			var bf struct {
+				Functions []string `json:"functions"`
+			}
+			json.Unmarshal(b, &bf)
+			for _, f := range bf.Functions {
+				known[f] = true
+				any = true
+			}
 		}
-		if len(bf.Functions) == 0 {
-			return // no function list recorded: nothing is "new"
-		}
-	} else {
-		return
+	}
+	if !any {
+		return // no function list recorded: nothing is "new"
 	}
 	if e.exempt == nil {
 		e.exempt = map[string]bool{}
@@ -149,24 +170,31 @@ func (e *Engine) prepareExempt(id string, fns []*ssa.Function, opts *VCOpts) {
 				}
 			}
 		}
-		if n > 250 || selfrec {
+		if n > 3000 || selfrec {
 			continue
 		}
-		o2 := *opts
-		o2.Safety = false
-		if !loops {
-			o2.CheckTags = nil
-		}
-		r := e.verifyFn(fn, &o2, nil)
-		initSem(16)
-		dischargeFn(r, Tier{Name: "exempt", BatchMS: 2000, SingleS: 5, Parallel: 16})
+		// does the new function meet the default contract? The untagged clauses always count; the clauses of the tag
+		// group (or the cost clauses) the running check is about count as well
 		bad := false
-		for _, o := range r.Obls {
-			if o.Kind == "post" && o.Answer != "unsat" {
-				bad = true
-			}
-			if loops && (o.Kind == "inv-init" || o.Kind == "inv-pres") && !strings.HasPrefix(o.Tag, "auto:") && o.Answer != "unsat" {
-				bad = true
+		variants := []VCOpts{*opts}
+		variants[0].CheckTags, variants[0].Cost, variants[0].TrackReads = nil, false, nil
+		if opts.CheckTags != nil || opts.Cost {
+			variants = append(variants, *opts)
+			variants[1].TrackReads = nil
+		}
+		for vi := range variants {
+			o2 := variants[vi]
+			o2.Safety = false
+			r := e.verifyFn(fn, &o2, nil)
+			initSem(16)
+			dischargeFn(r, Tier{Name: "exempt", BatchMS: 2000, SingleS: 5, Parallel: 16})
+			for _, o := range r.Obls {
+				if o.Kind == "post" && o.Answer != "unsat" {
+					bad = true
+				}
+				if loops && (o.Kind == "inv-init" || o.Kind == "inv-pres") && !strings.HasPrefix(o.Tag, "auto:") && o.Answer != "unsat" {
+					bad = true
+				}
 			}
 		}
 		if bad {
